@@ -23,8 +23,14 @@ fn drain_scoped(cfg: &Cfg, scopes: &[(u8, u8, u8, u8)], after: usize) -> Option<
         }
         let mut it = ev.into_iter();
         let mut items = vec![];
+        let mut full = c.clone();
+        full.scoped = false;
+        let cap = full.max_deals();
         while let Some(sd) = it.next() {
             items.push(item(&sd));
+            if items.len() > cap {
+                break; // runaway iterator: the run is reported as it is, one past the possible maximum
+            }
         }
         let mut revived = 0;
         for _ in 0..after {
